@@ -3,7 +3,7 @@
 The tool is built as shipped (tool objects + shared libeav.so, both ASan+UBSan) and run on generated files; its stdout/stderr/
 exit status are checked against a 15-line model of the documented trimming plus the stand-alone library's verdict and message
 for every resulting address (default settings)."""
-import collections, os, random, re, subprocess
+import collections, os, random, re, resource, subprocess
 from .. import core, ctx as _ctx, build, driver, gen, model as _model, addrgen as AG
 
 PROP = "C20"
@@ -106,6 +106,8 @@ def make_files(tier, seed, mdl):
             files.append(body + b"\n")
             files.append(body)
             files.append(b"q" * (L - len(t)) + t + b"\nnext@line.com\n")
+    files.append(b"a" * (3 * 1024 * 1024) + b"@b.com\nnext@line.com\n")                 # lines beyond any fixed or stack buffer
+    files.append(b"x@y.zz\n" + b"\x01" * (2 * 1024 * 1024 + 17) + b"\n" + ("é" * (5 * 1024 * 1024)).encode() + b"@a.com")
     files.append(b"".join(rng.choice(valid) + b"\n" for _ in range(5000)))            # many lines in one file
     files.append(b"".join((rng.choice(short) if i % 3 else rng.choice(valid)) + (b"\r\n" if i % 2 else b"\n") for i in range(3000)))
     while len(files) < nfiles:
@@ -143,7 +145,7 @@ def w_files(tool, libdir, exe, files, workdir, wid):
     i = 0
     group = 0
     while i < len(files):
-        k = 1 + (group % 3) if group % 40 else 24          # now and then two dozen files on one command line
+        k = 1 + (group % 3) if group % 40 else (24 if group % 80 else 90)   # now and then 24 / 90 files on one command line
         chunk = files[i:i + k]
         i += k
         group += 1
@@ -153,16 +155,18 @@ def w_files(tool, libdir, exe, files, workdir, wid):
             with open(p, "wb") as f:
                 f.write(data)
             paths.append(p)
+        # many files: with a low descriptor limit, so that a tool which does not close its files runs out
+        pre = (lambda: resource.setrlimit(resource.RLIMIT_NOFILE, (48, 48))) if k >= 24 else None
         try:
             if group % 4 == 1:
                 # stdout redirected to a regular file (fully buffered stdio) instead of a pipe
                 op = os.path.join(d, "out%d.txt" % group)
                 with open(op, "wb") as fo:
-                    pr = subprocess.run([tool] + paths, stdout=fo, stderr=subprocess.PIPE, env=env, timeout=300)
+                    pr = subprocess.run([tool] + paths, stdout=fo, stderr=subprocess.PIPE, env=env, timeout=300, preexec_fn=pre)
                 pr.stdout = open(op, "rb").read()
                 os.unlink(op)
             else:
-                pr = subprocess.run([tool] + paths, stdout=subprocess.PIPE, stderr=subprocess.PIPE, env=env, timeout=300)
+                pr = subprocess.run([tool] + paths, stdout=subprocess.PIPE, stderr=subprocess.PIPE, env=env, timeout=300, preexec_fn=pre)
         except subprocess.TimeoutExpired:
             part["viol"].append(("hang", {"files": [core.b2s(x)[:200] for x in chunk]}, {"timeout_s": 300}))
             continue
